@@ -5,5 +5,8 @@ CONSTANTS
   InitLen = 2
   Fixed = FALSE
   Ids <- IdsAll
+  ServeFails = TRUE
+  DeferUnreport = TRUE
+  LockedAdd = TRUE
 INVARIANTS OutcomeOK CountersNonNeg CountersBalanced
 CHECK_DEADLOCK FALSE
